@@ -95,6 +95,12 @@ ReportedOnceAtTheRightPlace ==
 
 Safe == D!StacksInSync /\ D!PositionsInRange
 
+\* C12 (design level): the fixed stack capacity of cstring_buffer parses is  N + EmptyRules + 1  with N = text length + 1
+EmptyRules(gg) == Cardinality({i \in 1..Len(Gs[gg].rules) : Gs[gg].rules[i].r = <<>>})
+StackCap == Len(inp) + 1 + EmptyRules(g) + 1
+StackFitsReported == ~Done \/ mxd <= StackCap
+                     \/ PrintT(<<"STACK", ToJson([g |-> g, bytes |-> inp, need |-> mxd, cap |-> StackCap, status |-> status])>>)
+
 (************************* expected behaviours for given inputs ***********)
 \* VERIF_GIVEN: ndjson of [g, bytes, ws, nl]; TLC runs the specification on each and prints the outcome
 Given == IF "VERIF_GIVEN" \in DOMAIN IOEnv THEN ndJsonDeserialize(IOEnv.VERIF_GIVEN) ELSE <<>>
